@@ -521,8 +521,11 @@ __gmp_doprnt (const struct doprnt_funs_t *funs, void *data,
             break;
 
           case '+':
-          case ' ':
             param.sign = fchar;
+            break;
+          case ' ':
+            if (param.sign != '+')      /* as in C, '+' overrides ' ' */
+              param.sign = fchar;
             break;
 
           case '-':
